@@ -18,6 +18,14 @@ type World struct {
 	V6     bool
 	Remote []netip.Addr // interesting remote addresses
 	Local  []netip.Addr // interesting local addresses
+	Probes []Probe      // packets aimed at groups of nested / overlapping rules
+}
+
+// Probe is a packet for one peer that was built together with a group of rules.
+type Probe struct {
+	Peer     int
+	P        firewall.Packet
+	Incoming bool
 }
 
 func addrFromU(v6 bool, hi, lo uint64) netip.Addr {
@@ -256,7 +264,195 @@ func GenWorld(r *hlib.Rand, maxRules int) *World {
 	for i := 0; i < nRules; i++ {
 		w.Rules = append(w.Rules, w.GenRule(r))
 	}
+	// groups of rules that share a bucket (direction, protocol, port, CA) and whose CIDR-valued selectors are
+	// nested: the table must honour every one of them, not only the most specific
+	if maxRules > 0 {
+		for k := hlib.Pick(r, 0, 1, 1, 2); k > 0; k-- {
+			w.AddNested(r)
+		}
+	}
+	for i := len(w.Rules) - 1; i > 0; i-- {
+		j := r.Intn(i + 1)
+		w.Rules[i], w.Rules[j] = w.Rules[j], w.Rules[i]
+	}
 	return w
+}
+
+// otherAddr is an address of the family that differs from a (for a CIDR that must not contain a).
+func otherAddr(r *hlib.Rand, a netip.Addr) netip.Addr {
+	for {
+		b := RandAddr(r, a.Is6())
+		if b != a {
+			return b
+		}
+	}
+}
+
+// AddNested appends 2–3 rules in one bucket whose remote CIDRs (or local CIDRs) are nested around an address the
+// peer may use, the narrower ones carrying the more restrictive other selector, and probes that only the broader
+// rule accepts (and some that every / no rule accepts).
+func (w *World) AddNested(r *hlib.Rand) {
+	pi := r.Intn(len(w.Peers))
+	peer := w.Peers[pi]
+	// a remote address that can pass the address check
+	remote := peer.CNets[r.Intn(len(peer.CNets))].Addr()
+	for k := 0; k < 4 && !w.inMine(remote); k++ {
+		remote = peer.CNets[r.Intn(len(peer.CNets))].Addr()
+	}
+	if len(peer.CUnsafe) > 0 && r.Chance(1, 4) {
+		remote = AddrIn(r, peer.CUnsafe[r.Intn(len(peer.CUnsafe))])
+	}
+	// local addresses that can pass the address check: own addresses, and inside own unsafe networks
+	locals := []netip.Addr{}
+	for _, n := range w.My.CNets {
+		if n.Addr().Is6() == remote.Is6() {
+			locals = append(locals, n.Addr())
+		}
+	}
+	for _, n := range w.My.CUnsafe {
+		if n.Addr().Is6() == remote.Is6() {
+			locals = append(locals, AddrIn(r, n), AddrIn(r, n))
+		}
+	}
+	if len(locals) == 0 {
+		return
+	}
+	local := locals[r.Intn(len(locals))]
+	base := Rule{Incoming: r.Chance(2, 3), Proto: hlib.Pick(r, uint8(0), 6, 17, 1)}
+	switch r.Intn(4) {
+	case 0:
+		base.Start, base.End = 0, 0
+	case 1:
+		p := hlib.Pick(r, ports...)
+		base.Start, base.End = p, p+int32(r.Intn(3))
+		if base.End > 65535 {
+			base.End = 65535
+		}
+	default:
+		p := hlib.Pick(r, ports...)
+		base.Start, base.End = p, p
+	}
+	if r.Chance(1, 5) {
+		base.CASha = peer.CIssuer
+	}
+	bl := remote.BitLen()
+	mk := func(a netip.Addr, bits int) string {
+		p := netip.PrefixFrom(a, bits)
+		if r.Bool() {
+			p = p.Masked()
+		}
+		return p.String()
+	}
+	// restrictive local selectors: a prefix that does not contain `local`, or (when this node has unsafe networks and
+	// no default_local_cidr_any) the implicit default = own networks, which an address in an unsafe network misses
+	restrictive := func() string {
+		if len(w.My.CUnsafe) > 0 && !w.DLCA && r.Chance(1, 2) {
+			return ""
+		}
+		o := otherAddr(r, local)
+		return mk(o, o.BitLen()-r.Intn(3))
+	}
+	permissive := func() string {
+		switch r.Intn(3) {
+		case 0:
+			return "any"
+		case 1:
+			return mk(local, r.Range(0, local.BitLen()))
+		}
+		if len(w.My.CUnsafe) == 0 || w.DLCA {
+			return ""
+		}
+		return "any"
+	}
+	var group []Rule
+	if r.Chance(3, 4) {
+		// nested remote CIDRs, 2 or 3 levels, the broadest permissive
+		levels := hlib.Pick(r, 2, 2, 3)
+		bits := make([]int, levels)
+		bits[0] = r.Range(0, bl-levels)
+		for i := 1; i < levels; i++ {
+			bits[i] = r.Range(bits[i-1]+1, bl-(levels-1-i))
+		}
+		for i := 0; i < levels; i++ {
+			ru := base
+			ru.Cidr = mk(remote, bits[i])
+			if i == 0 {
+				ru.LocalCidr = permissive()
+			} else {
+				ru.LocalCidr = restrictive()
+			}
+			group = append(group, ru)
+		}
+		if r.Chance(1, 4) { // the permissive one in the middle / at the narrow end instead
+			k := r.Intn(levels)
+			group[0].LocalCidr, group[k].LocalCidr = group[k].LocalCidr, group[0].LocalCidr
+		}
+	} else {
+		// the same remote selector, nested local CIDRs
+		sel := base
+		switch r.Intn(3) {
+		case 0:
+			sel.Cidr = mk(remote, r.Range(0, bl))
+		case 1:
+			sel.Host = peer.CName
+		default:
+			if len(peer.CGroups) > 0 {
+				sel.Groups = []string{peer.CGroups[0]}
+			} else {
+				sel.Host = peer.CName
+			}
+		}
+		lb := local.BitLen()
+		b0 := r.Range(0, lb-1)
+		broad, narrow := sel, sel
+		broad.LocalCidr = mk(local, b0)
+		o := otherAddr(r, local)
+		narrow.LocalCidr = mk(o, r.Range(b0+1, lb))
+		group = append(group, broad, narrow)
+	}
+	w.Rules = append(w.Rules, group...)
+	// probes: the address pair the group was built around, in the bucket; plus near misses
+	mkp := func() firewall.Packet {
+		p := firewall.Packet{LocalAddr: local, RemoteAddr: remote, Protocol: base.Proto}
+		if base.Proto == 0 {
+			p.Protocol = hlib.Pick(r, uint8(6), 17, 1, 47)
+		}
+		port := uint16(hlib.Pick(r, ports...))
+		if base.Start > 0 {
+			port = uint16(base.Start + int32(r.Intn(int(base.End-base.Start)+1)))
+		}
+		other := uint16(hlib.Pick(r, ports...))
+		if base.Incoming {
+			p.LocalPort, p.RemotePort = port, other
+		} else {
+			p.LocalPort, p.RemotePort = other, port
+		}
+		return p
+	}
+	for k := r.Range(2, 4); k > 0; k-- {
+		p := mkp()
+		switch r.Intn(6) {
+		case 0:
+			p.LocalAddr = locals[r.Intn(len(locals))]
+		case 1:
+			if base.Incoming {
+				p.LocalPort++
+			} else {
+				p.RemotePort++
+			}
+		}
+		w.Probes = append(w.Probes, Probe{Peer: pi, P: p, Incoming: base.Incoming})
+	}
+	w.Remote = append(w.Remote, remote)
+	w.Local = append(w.Local, local)
+}
+
+// GenProbe returns one of the packets built together with a nested rule group.
+func (w *World) GenProbe(r *hlib.Rand) (Probe, bool) {
+	if len(w.Probes) == 0 {
+		return Probe{}, false
+	}
+	return w.Probes[r.Intn(len(w.Probes))], true
 }
 
 var ports = []int32{1, 22, 80, 81, 443, 8080, 65535}
